@@ -182,6 +182,88 @@ def stack_reach(*a):
     return LAST[9] is None and len(LAST[11]) >= 1 and any(k == 'test' for k, n in LAST[10])
 
 
+# ---------------------------------------------------------------- five layers
+
+import itertools  # noqa: E402
+
+from vt.util import pick  # noqa: E402
+
+POOL5 = ['La', 'Lb', 'Lc', 'Ld', 'Le']
+PERM5 = list(itertools.permutations(range(5)))
+OWN5 = [0b10000, 0b10110, 0b11111, 0b01001]      # which roles own tests (bit i = role i)
+
+
+def stack5(p, topo, own, tdk):
+    """A diamond whose apex has one more, unrelated base - roles 0 = shared base S, 1 = B1(S), 2 = B2(S), 3 = X, 4 = T(B1, B2, X)
+    (topo 0) / T(X, B1, B2) (topo 1) / T(B1, X, B2) (topo 2) - under every naming of the five layers (names decide the
+    order in which the runner visits bases).  tdk: 0 no fault, 1 the shared base's tearDown raises, 2 B1's tearDown raises
+    NotImplementedError."""
+    global LAST
+    W.reset()
+    naming = pick(PERM5, p)
+    topo = ci(topo, 0, 2)
+    own = pick(OWN5, own)
+    tdk = ci(tdk, 0, 2)
+    names = [POOL5[naming[i]] for i in range(5)]
+    with untraced():
+        td = [0] * 5
+        if tdk == 1:
+            td[0] = 1
+        elif tdk == 2:
+            td[1] = 2
+        S = W.mk_layer(names[0], (), td=td[0], hooks='st')
+        B1 = W.mk_layer(names[1], (S,), td=td[1], hooks='st')
+        B2 = W.mk_layer(names[2], (S,), hooks='st')
+        X = W.mk_layer(names[3], (), hooks='st')
+        T = W.mk_layer(names[4], [(B1, B2, X), (X, B1, B2), (B1, X, B2)][topo], hooks='st')
+        layers = [S, B1, B2, X, T]
+        bases = {names[0]: set(), names[1]: {names[0]}, names[2]: {names[0]}, names[3]: set(), names[4]: {names[1], names[2], names[3]}}
+        anc = closure(bases)
+        lt = []
+        for i in (4, 0, 2, 1, 3):
+            if own >> i & 1:
+                lt.append((layers[i], [W.mk_test('t%sa' % names[i][1], W.PASS), W.mk_test('t%sb' % names[i][1], W.PASS)]))
+    o = RW.options([])
+    r = RW.make_runner(o, lt)
+    resumed = []
+
+    def fake_resume(script_parts, options, features, layers_, failures, errors, skipped, cwd=None):
+        resumed.extend(n for n, _l, _t in layers_)
+        return 0
+    orig = R.resume_tests
+    R.resume_tests = fake_resume
+    try:
+        r.run_tests()
+    finally:
+        R.resume_tests = orig
+    with untraced():
+        su_fault = {n: 0 for n in names}
+        td_fault = dict(zip(names, td))
+        ev = pid_events(W.TRACE, 0, td_fault)
+        why = check_pid(ev, anc, su_fault, set(names))
+        if why is None:
+            ran = [n for k, n in ev if k == 'test']
+            for i in range(5):
+                if own >> i & 1:
+                    for sfx in 'ab':
+                        c = ran.count('t%s%s' % (names[i][1], sfx))
+                        handed = ('w.' + names[i]) in resumed
+                        if c != (0 if handed else 1):
+                            why = 'test t%s%s ran %d times (layer handed over: %s)' % (names[i][1], sfx, c, handed)
+                            break
+                if why:
+                    break
+        if why is None and resumed and tdk != 2:
+            why = 'layers handed to subprocesses without a NotImplementedError tearDown: %r' % (resumed,)
+    LAST = (tuple(names), topo, own, tdk, why, tuple(ev), tuple(resumed))
+    return why is None
+
+
+def stack5_reach(*a):
+    stack5(*a)
+    return LAST[4] is None and sum(1 for k, n in LAST[5] if k == 'su') >= 5 and sum(1 for k, n in LAST[5] if k in ('td', 'td_nie')) >= 5
+
+
 # ---------------------------------------------------------------- loop-back
 
 LB_TESTS = {}
@@ -304,7 +386,7 @@ SPEC = {
               'evaluated untraced on concrete argv', 'runner.time / statistics.time / shuffle.time, runner.gc',
               'unittest.TestResult._exc_info_to_string -> constant'],
     'assumptions': ['every layer defines setUp and tearDown (a layer without hooks emits nothing observable)'],
-    'outside': ['real OS processes', 'MemoryError / KeyboardInterrupt from layer hooks', '-D with a real debugger session (pdb is stubbed: the debugger returns at once)', 'more than 3 layers'],
+    'outside': ['real OS processes', 'MemoryError / KeyboardInterrupt from layer hooks', '-D with a real debugger session (pdb is stubbed: the debugger returns at once)', 'layer graphs other than all graphs on 3 layers and the five-layer diamond with one more unrelated base'],
     'harnesses': [
         {'name': 'stack', 'fn': 'stack', 'params': _P, 'call': _C,
          'bounds': {'quick': _B + _F2 + ' and not inst and not (x and rep2) and (not pm or (not x and not rep2 and su0 + su1 + su2 + (td0 != 0) + (td1 != 0) + (td2 != 0) <= 1))', 'thorough': _B + ' and su0 + su1 + su2 + (td0 != 0) + (td1 != 0) + (td2 != 0) <= 3 and (not pm or not x)'},
@@ -322,5 +404,13 @@ SPEC = {
                                                      'thorough': _BL + ' and not su1 and j == 0 and not e10 and not e20 and not e21'},
          'timeout': {'quick': 240, 'thorough': 850},
          'fidelity': [_vl(), _vl(j=2, td0=0, td2=1)]},
+        {'name': 'stack5', 'fn': 'stack5', 'params': [('p', 'int'), ('topo', 'int'), ('own', 'int'), ('tdk', 'int')], 'call': 'p, topo, own, tdk',
+         'bounds': {'quick': '0 <= p < 120 and 0 <= topo <= 2 and 0 <= own < 4 and 0 <= tdk <= 2 and own == 0 and tdk == 0',
+                    'thorough': '0 <= p < 120 and 0 <= topo <= 2 and 0 <= own < 4 and 0 <= tdk <= 2'},
+         'slices': {'quick': ['p %% 8 == %d' % m for m in range(8)],
+                    'thorough': ['p %% 8 == %d and own == %d' % (m, w_) for m in range(8) for w_ in range(4)]},
+         'reach': 'stack5_reach', 'reach_bounds': {'quick': 'p == 0 and topo == 0 and own == 0 and tdk == 0', 'thorough': 'p == 0 and topo == 0 and own == 0 and tdk == 0'},
+         'timeout': {'quick': 240, 'thorough': 850},
+         'fidelity': [dict(p=0, topo=0, own=0, tdk=0), dict(p=77, topo=1, own=2, tdk=1), dict(p=119, topo=2, own=1, tdk=2)]},
     ],
 }
